@@ -892,30 +892,30 @@ theorem foldl_mapInsert_nodup {α : Type} (key : α → String) (l : List α) (h
 
 def Listed (types : List (String × Kind)) (n : String) : Prop := types.any (fun p => p.1 == n) = true
 
-theorem rebuildIV_ok (D : SchemaDef Unit) (types : List (String × Kind)) (a : InputValueDef Unit)
+theorem rebuildIV_ok (keep : Bool) (D : SchemaDef Unit) (types : List (String × Kind)) (a : InputValueDef Unit)
     (hd : a.type.ref.depth ≤ typeRefLevels) (hl : Listed types a.type.ref.leaf) :
-    rebuildIV types (inputValueData D a) = .ok (forgetIV a) := by
+    rebuildIV keep types (inputValueData D a) = .ok (forgetIV keep D a) := by
   simp [rebuildIV, inputValueData, getType_refData D types a.type.ref typeRefLevels hd hl, Except.map,
     forgetIV, nullableString_getD]
 
-theorem rebuildIV0_ok (D : SchemaDef Unit) (types : List (String × Kind)) (a : InputValueDef0 Unit)
+theorem rebuildIV0_ok (keep : Bool) (D : SchemaDef Unit) (types : List (String × Kind)) (a : InputValueDef0 Unit)
     (hd : a.type.ref.depth ≤ typeRefLevels) (hl : Listed types a.type.ref.leaf) :
-    rebuildIV0 types (inputValueData0 D a) = .ok (forgetIV0 a) := by
+    rebuildIV0 keep types (inputValueData0 D a) = .ok (forgetIV0 keep D a) := by
   simp [rebuildIV0, inputValueData0, getType_refData D types a.type.ref typeRefLevels hd hl, Except.map,
     forgetIV0, nullableString_getD]
 
-theorem forgetIV_name (a : InputValueDef Unit) : (forgetIV a).name = a.name := rfl
-theorem forgetField_name (f : FieldDef Unit) : (forgetField f).name = f.name := rfl
+theorem forgetIV_name (keep : Bool) (D : SchemaDef Unit) (a : InputValueDef Unit) : (forgetIV keep D a).name = a.name := rfl
+theorem forgetField_name (keep : Bool) (D : SchemaDef Unit) (f : FieldDef Unit) : (forgetField keep D f).name = f.name := rfl
 
-theorem rebuildField_ok (D : SchemaDef Unit) (types : List (String × Kind)) (f : FieldDef Unit)
+theorem rebuildField_ok (keep : Bool) (D : SchemaDef Unit) (types : List (String × Kind)) (f : FieldDef Unit)
     (hd : f.type.ref.depth ≤ typeRefLevels) (hl : Listed types f.type.ref.leaf)
     (hargs : ∀ a ∈ f.args, a.type.ref.depth ≤ typeRefLevels ∧ Listed types a.type.ref.leaf)
     (hn : (f.args.map (·.name)).Nodup) :
-    rebuildField types (fieldData D f) = .ok (forgetField f) := by
+    rebuildField keep types (fieldData D f) = .ok (forgetField keep D f) := by
   have h1 := getType_refData D types f.type.ref typeRefLevels hd hl
-  have h2 : mapExcept (rebuildIV types) (f.args.map (inputValueData D)) = .ok (f.args.map forgetIV) :=
-    mapExcept_map_ok (fun a ha => rebuildIV_ok D types a (hargs a ha).1 (hargs a ha).2)
-  have h3 : (f.args.map forgetIV).foldl (mapInsert (·.name)) [] = f.args.map forgetIV :=
+  have h2 : mapExcept (rebuildIV keep types) (f.args.map (inputValueData D)) = .ok (f.args.map (forgetIV keep D)) :=
+    mapExcept_map_ok (fun a ha => rebuildIV_ok keep D types a (hargs a ha).1 (hargs a ha).2)
+  have h3 : (f.args.map (forgetIV keep D)).foldl (mapInsert (·.name)) [] = f.args.map (forgetIV keep D) :=
     foldl_mapInsert_nodup _ _ (by simpa [List.map_map, Function.comp_def, forgetIV_name] using hn)
   simp [rebuildField, fieldData, h1, h2, h3, forgetField, nullableString_getD]
 
@@ -954,8 +954,8 @@ theorem namedOfKind_ok (D : SchemaDef Unit) (types : List (String × Kind)) (k :
     getType_refData D types (.named n) typeRefLevels (by simp [TRef.depth]) hl
   simp [namedOfKind, hg, h]
 
-theorem rebuildType_ok (D V : SchemaDef Unit) (types : List (String × Kind)) (t : TypeDef Unit)
-    (hok : TypeOk types t) : rebuildType types (describeType D V t) = .ok (forgetType t) := by
+theorem rebuildType_ok (keep : Bool) (D V : SchemaDef Unit) (types : List (String × Kind)) (t : TypeDef Unit)
+    (hok : TypeOk types t) : rebuildType keep types (describeType D V t) = .ok (forgetType keep D t) := by
   unfold rebuildType forgetType
   simp only [describeType_name]
   by_cases hb : isBuiltin t.name = true
@@ -963,11 +963,11 @@ theorem rebuildType_ok (D V : SchemaDef Unit) (types : List (String × Kind)) (t
   · simp only [hb, Bool.false_eq_true, if_false]
     have hk : kindOfName (describeType D V t).kind = some t.kind := kindOfName_kindName t.kind
     rw [hk]
-    have hfields : mapExcept (rebuildField types) (t.fields.map (fieldData D)) = .ok (t.fields.map forgetField) :=
+    have hfields : mapExcept (rebuildField keep types) (t.fields.map (fieldData D)) = .ok (t.fields.map (forgetField keep D)) :=
       mapExcept_map_ok (fun f hf => by
         obtain ⟨h1, h2, h3, h4⟩ := hok.fields f hf
-        exact rebuildField_ok D types f h1 h2 h3 h4)
-    have hfold : (t.fields.map forgetField).foldl (mapInsert (·.name)) [] = t.fields.map forgetField :=
+        exact rebuildField_ok keep D types f h1 h2 h3 h4)
+    have hfold : (t.fields.map (forgetField keep D)).foldl (mapInsert (·.name)) [] = t.fields.map (forgetField keep D) :=
       foldl_mapInsert_nodup _ _ (by simpa [List.map_map, Function.comp_def, forgetField_name] using hok.fieldsNodup)
     cases hkind : t.kind with
     | scalar => simp [shellType, describeType, nullableString_getD]
@@ -994,27 +994,27 @@ theorem rebuildType_ok (D V : SchemaDef Unit) (types : List (String × Kind)) (t
           simpa [List.map_map, Function.comp_def, forgetEnumValue] using hok.valuesNodup)
       simp [describeType, hkind, hvals, hvf, forgetEnum, shellType, nullableString_getD]
     | inputObject =>
-      have hin : mapExcept (rebuildIV types) (t.inputs.map (inputValueData D)) = .ok (t.inputs.map forgetIV) :=
-        mapExcept_map_ok (fun a ha => rebuildIV_ok D types a (hok.inputs a ha).1 (hok.inputs a ha).2)
-      have hinf : (t.inputs.map forgetIV).foldl (mapInsert (·.name)) [] = t.inputs.map forgetIV :=
+      have hin : mapExcept (rebuildIV keep types) (t.inputs.map (inputValueData D)) = .ok (t.inputs.map (forgetIV keep D)) :=
+        mapExcept_map_ok (fun a ha => rebuildIV_ok keep D types a (hok.inputs a ha).1 (hok.inputs a ha).2)
+      have hinf : (t.inputs.map (forgetIV keep D)).foldl (mapInsert (·.name)) [] = t.inputs.map (forgetIV keep D) :=
         foldl_mapInsert_nodup _ _ (by simpa [List.map_map, Function.comp_def, forgetIV_name] using hok.inputsNodup)
       simp [describeType, hkind, hin, hinf, forgetInput, shellType, nullableString_getD]
 
 
-theorem forgetIV0_name (a : InputValueDef0 Unit) : (forgetIV0 a).name = a.name := rfl
+theorem forgetIV0_name (keep : Bool) (D : SchemaDef Unit) (a : InputValueDef0 Unit) : (forgetIV0 keep D a).name = a.name := rfl
 
-theorem rebuildDirective_ok (D : SchemaDef Unit) (types : List (String × Kind)) (dd : DirectiveDef Unit)
+theorem rebuildDirective_ok (keep : Bool) (D : SchemaDef Unit) (types : List (String × Kind)) (dd : DirectiveDef Unit)
     (hlocs : ∀ l ∈ dd.locs, l ∈ knownLocations)
     (hargs : ∀ a ∈ dd.args, a.type.ref.depth ≤ typeRefLevels ∧ Listed types a.type.ref.leaf)
     (hn : (dd.args.map (·.name)).Nodup) :
-    rebuildDirective types (directiveData D dd) = .ok (forgetDirective dd) := by
+    rebuildDirective keep types (directiveData D dd) = .ok (forgetDirective keep D dd) := by
   have hfind : dd.locs.find? (fun l => !knownLocations.contains l) = none := by
     rw [List.find?_eq_none]
     intro l hl
     simp [hlocs l hl]
-  have hmap : mapExcept (rebuildIV0 types) (dd.args.map (inputValueData0 D)) = .ok (dd.args.map forgetIV0) :=
-    mapExcept_map_ok (fun a ha => rebuildIV0_ok D types a (hargs a ha).1 (hargs a ha).2)
-  have hfold : (dd.args.map forgetIV0).foldl (mapInsert (·.name)) [] = dd.args.map forgetIV0 :=
+  have hmap : mapExcept (rebuildIV0 keep types) (dd.args.map (inputValueData0 D)) = .ok (dd.args.map (forgetIV0 keep D)) :=
+    mapExcept_map_ok (fun a ha => rebuildIV0_ok keep D types a (hargs a ha).1 (hargs a ha).2)
+  have hfold : (dd.args.map (forgetIV0 keep D)).foldl (mapInsert (·.name)) [] = dd.args.map (forgetIV0 keep D) :=
     foldl_mapInsert_nodup _ _ (by simpa [List.map_map, Function.comp_def, forgetIV0_name] using hn)
   unfold rebuildDirective
   simp only [directiveData]
@@ -1033,7 +1033,7 @@ theorem describe_types_eq (D V : SchemaDef Unit) :
   intro a _ b _
   rfl
 
-theorem forgetDirective_name (x : DirectiveDef Unit) : (forgetDirective x).name = x.name := rfl
+theorem forgetDirective_name (keep : Bool) (D : SchemaDef Unit) (x : DirectiveDef Unit) : (forgetDirective keep D x).name = x.name := rfl
 
 /-- Everything `rebuild (describe D V)` needs, stated about the visible schema. -/
 structure RebuildOk (V : SchemaDef Unit) : Prop where
@@ -1050,8 +1050,8 @@ structure RebuildOk (V : SchemaDef Unit) : Prop where
 theorem mem_sortDefs {l : List (TypeDef Unit)} {t : TypeDef Unit} : t ∈ sortDefs l ↔ t ∈ l :=
   (List.mergeSort_perm l _).mem_iff
 
-theorem rebuild_describe (D V : SchemaDef Unit) (h : RebuildOk V) :
-    rebuild (describe D V) = .ok (forgetDef V) := by
+theorem rebuildRaw_describe (keep : Bool) (D V : SchemaDef Unit) (h : RebuildOk V) :
+    rebuildRaw keep (describe D V) = .ok (forgetDefP keep D V) := by
   have htypes := describe_types_eq D V
   have hnd : nodupNames ((describe D V).types.map (·.name)) = true := by
     rw [nodupNames_iff, htypes]
@@ -1073,15 +1073,15 @@ theorem rebuild_describe (D V : SchemaDef Unit) (h : RebuildOk V) :
     · simp [hb]
     · have : kindOfName (describeType D V t).kind = some t.kind := kindOfName_kindName t.kind
       simp [hb, this]
-  have hts : mapExcept (rebuildType (kindTable (sortDefs V.types))) (describe D V).types
-      = .ok ((sortDefs V.types).map forgetType) := by
+  have hts : mapExcept (rebuildType keep (kindTable (sortDefs V.types))) (describe D V).types
+      = .ok ((sortDefs V.types).map (forgetType keep D)) := by
     rw [htypes]
-    exact mapExcept_map_ok (fun t ht => rebuildType_ok D V _ t (h.typesOk t (mem_sortDefs.mp ht)))
-  have hds : mapExcept (rebuildDirective (kindTable (sortDefs V.types))) (describe D V).directives
-      = .ok (V.directives.map forgetDirective) := by
+    exact mapExcept_map_ok (fun t ht => rebuildType_ok keep D V _ t (h.typesOk t (mem_sortDefs.mp ht)))
+  have hds : mapExcept (rebuildDirective keep (kindTable (sortDefs V.types))) (describe D V).directives
+      = .ok (V.directives.map (forgetDirective keep D)) := by
     show mapExcept _ (V.directives.map (directiveData D)) = _
-    exact mapExcept_map_ok (fun dd hdd => rebuildDirective_ok D _ dd (h.dirs dd hdd).1 (h.dirs dd hdd).2.1 (h.dirs dd hdd).2.2)
-  have hdfold : (V.directives.map forgetDirective).foldl (mapInsert (·.name)) [] = V.directives.map forgetDirective :=
+    exact mapExcept_map_ok (fun dd hdd => rebuildDirective_ok keep D _ dd (h.dirs dd hdd).1 (h.dirs dd hdd).2.1 (h.dirs dd hdd).2.2)
+  have hdfold : (V.directives.map (forgetDirective keep D)).foldl (mapInsert (·.name)) [] = V.directives.map (forgetDirective keep D) :=
     foldl_mapInsert_nodup _ _ (by simpa [List.map_map, Function.comp_def, forgetDirective_name] using h.dirsNodup)
   obtain ⟨q, hq, hqk⟩ := h.query
   have hroot : rootOf (kindTable (sortDefs V.types)) "query" q = .ok q := by simp [rootOf, hqk]
@@ -1096,7 +1096,7 @@ theorem rebuild_describe (D V : SchemaDef Unit) (h : RebuildOk V) :
     | none => rfl
     | some s => simp [optRoot, rootOf, h.subscription s hs, Except.map]
   have hqt : (describe D V).queryType = some q := hq
-  unfold rebuild
+  unfold rebuildRaw
   rw [hnd]
   simp only [Bool.not_true, Bool.false_eq_true, if_false]
   rw [htable]
@@ -1106,8 +1106,36 @@ theorem rebuild_describe (D V : SchemaDef Unit) (h : RebuildOk V) :
   unfold rebuildWith
   rw [hroot, hmut, hsub, hts, hds]
   simp only [hdfold]
-  simp [forgetDef, hq]
+  simp [forgetDefP, hq]
 
+
+theorem pendingDefault_false (x : DefaultD) : pendingDefault false x = none := by
+  cases x <;> rfl
+
+theorem forgetIV_false (D D' : SchemaDef Unit) : forgetIV false D = forgetIV false D' := by
+  funext a; simp [forgetIV, pendingDefault_false]
+
+theorem forgetIV0_false (D D' : SchemaDef Unit) : forgetIV0 false D = forgetIV0 false D' := by
+  funext a; simp [forgetIV0, pendingDefault_false]
+
+theorem forgetField_false (D D' : SchemaDef Unit) : forgetField false D = forgetField false D' := by
+  funext f; simp [forgetField, forgetIV_false D D']
+
+theorem forgetType_false (D D' : SchemaDef Unit) : forgetType false D = forgetType false D' := by
+  funext t
+  simp [forgetType, forgetObject, forgetInterface, forgetInput, forgetField_false D D', forgetIV_false D D']
+
+theorem forgetDirective_false (D D' : SchemaDef Unit) : forgetDirective false D = forgetDirective false D' := by
+  funext x; simp [forgetDirective, forgetIV0_false D D']
+
+/-- Without defaults the rebuilt definition does not depend on the printing context. -/
+theorem forgetDefP_false (D D' V : SchemaDef Unit) : forgetDefP false D V = forgetDefP false D' V := by
+  simp [forgetDefP, forgetType_false D D', forgetDirective_false D D']
+
+theorem rebuild_describe (D V : SchemaDef Unit) (h : RebuildOk V) :
+    rebuild (describe D V) = .ok (forgetDef V) := by
+  unfold rebuild forgetDef
+  rw [rebuildRaw_describe false D V h, forgetDefP_false D V V]
 
 theorem find?_entry_of_nodup {M : List (TypeDef Unit)} (hn : (M.map (·.name)).Nodup) {t : TypeDef Unit} (ht : t ∈ M)
     (entry : TypeDef Unit → String × Kind) (he : ∀ u, (entry u).1 = u.name) :
@@ -1150,9 +1178,9 @@ structure RebuildGuards (S : Schema) (F : List String) : Prop where
   dirDepth : ∀ dd ∈ S.defn.directives, ∀ a ∈ dd.args, a.type.ref.depth ≤ typeRefLevels
   /-- directive locations are among the eighteen of the specification -/
   locs : ∀ dd ∈ S.defn.directives, ∀ l ∈ dd.locs, l ∈ knownLocations
-  /-- the root operation types are visible to the request -/
-  roots : ∀ n ∈ optList S.defn.query ++ optList S.defn.mutation ++ optList S.defn.subscription,
-    subsetOf (S.defn.featuresOf n) F = true
+  /-- the query root type is visible to the request (a mutation / subscription root that is not
+      is introspected as absent since fix C13/04) -/
+  queryRoot : ∀ q, S.defn.query = some q → subsetOf (S.defn.featuresOf q) F = true
 
 /-- A registered, visible name has its (restricted) definition in the visible schema. -/
 theorem visible_entry {S : Schema} (hf : Facts S) {F : List String} {n : String} {tn : TypeDef Unit}
@@ -1184,12 +1212,24 @@ theorem rebuildOk_visible {S : Schema} (h : Accepted S) (hd : DirArgsUngated S) 
   have hlisted : ∀ n, n ∈ (visible S F).types.map (·.name) → Listed (kindTable (sortDefs (visible S F).types)) n :=
     fun n hn => listed_kindTable hn
   have hrootk : ∀ n ∈ optList S.defn.query ++ optList S.defn.mutation ++ optList S.defn.subscription,
+      subsetOf (S.defn.featuresOf n) F = true →
       kindIn (kindTable (sortDefs (visible S F).types)) n = some .object := by
-    intro n hn
+    intro n hn hfe
     obtain ⟨tn, hl, hk⟩ := hf.rootKind n hn
     have hreg : n ∈ S.namedTypes := hf.rootsReg n (by simp only [List.mem_append] at hn ⊢; exact Or.inl hn)
-    have := kindIn_visible hf hl (visibleName_of hreg (hg.roots n hn)) (by rw [hk]; decide)
+    have := kindIn_visible hf hl (visibleName_of hreg hfe) (by rw [hk]; decide)
     rw [this, hk]
+  have hvr : ∀ (o : Option String) (m : String), visibleRoot S.defn F o = some m →
+      o = some m ∧ subsetOf (S.defn.featuresOf m) F = true := by
+    intro o m h
+    cases o with
+    | none => simp [visibleRoot] at h
+    | some n =>
+      simp only [visibleRoot] at h
+      split at h
+      · rename_i hfe
+        simp at h; subst h; exact ⟨rfl, hfe⟩
+      · simp at h
   refine ⟨visible_types_nodup hf F, ?_, ?_, ?_, ?_, hf.dirsNodup, ?_⟩
   · intro u hu
     have hu' := hu
@@ -1228,14 +1268,14 @@ theorem rebuildOk_visible {S : Schema} (h : Accepted S) (hd : DirArgsUngated S) 
     cases hqq : S.defn.query with
     | none => simp [hqq] at hq
     | some q =>
-      refine ⟨q, hqq, hrootk q ?_⟩
+      refine ⟨q, hqq, hrootk q ?_ (hg.queryRoot q hqq)⟩
       simp [optList, hqq]
   · intro m hm
-    have hm' : S.defn.mutation = some m := hm
-    exact hrootk m (by simp [optList, hm'])
+    obtain ⟨hm', hfe⟩ := hvr S.defn.mutation m hm
+    exact hrootk m (by simp [optList, hm']) hfe
   · intro s hs
-    have hs' : S.defn.subscription = some s := hs
-    exact hrootk s (by simp [optList, hs'])
+    obtain ⟨hs', hfe⟩ := hvr S.defn.subscription s hs
+    exact hrootk s (by simp [optList, hs']) hfe
   · intro dd hdd
     have hdd' : dd ∈ S.defn.directives := hdd
     refine ⟨hg.locs dd hdd', ?_, hf.dirArgsNodup dd hdd'⟩
